@@ -67,7 +67,7 @@ pub fn check(case: &Case) -> Result<Option<Obs>, (String, String)> {
     let ast = match vm::parse(&source) { Ok(a) => a, Err(_) => return Ok(None) };
     let program = match vm::compile(&ast) { Ok(p) => p, Err(_) => return Ok(None) };
     let model = match foreign::model_of(&program) { Ok(m) => m, Err(_) => return Ok(None) };
-    if work::qualify(&case.spec, 150_000).is_none() { return Ok(None); }
+    if work::qualify(&case.spec, 1_500_000).is_none() { return Ok(None); }
     let dir = scratch_dir();
     let mut children = 0u64;
     let cleanup = |d: &std::path::Path| { let _ = std::fs::remove_dir_all(d); };
@@ -185,7 +185,8 @@ fn minimise(case: &Case, oracle: &str) -> Case {
 
 pub fn run_layer_b(property: &str, seed: u64, tier: &str, ev: &mut Evidence) -> Vec<Violation> {
     let n = if tier == "thorough" { 120_000usize } else { 1200 };
-    let corpus: Vec<ProgSpec> = work::corpus_specs().into_iter().filter(|(_, s)| s.source().is_some()).map(|(_, s)| s).collect();
+    let mut corpus: Vec<ProgSpec> = work::corpus_specs().into_iter().filter(|(_, s)| s.source().is_some()).map(|(_, s)| s).collect();
+    corpus.extend(work::scale_templates().into_iter().map(|(_, s)| ProgSpec::Source(s)));
     let outs: Vec<(Case, Result<Option<Obs>, (String, String)>)> = par_map(n, |i| {
         let mut rng = Rng::for_case(seed, property, ENGINE, i as u64);
         let spec = if i < corpus.len() { corpus[i].clone() } else {
